@@ -1,6 +1,7 @@
 """C19, client side: whatever a server sends, the client returns well-typed results or raises an ordinary exception."""
 import asyncio
 import itertools
+import re
 import pathlib
 import random
 
@@ -40,6 +41,14 @@ def list_lines(rng, tier):
                 else:
                     f[fi] = m
                 out.append((tname, fi, mk, sep.join(f)))
+        # the numbers inside a field, one at a time, grown past every width a date, a size or a count can have
+        for fi in range(len(tmpl)):
+            runs = list(re.finditer(r"\d+", tmpl[fi]))
+            for j, m in enumerate(runs):
+                for rk, rep in (("wide", m.group(0) + "0" * 9), ("nines", "9" * 12), ("nines20", "9" * 20), ("zero", "0"), ("padded", m.group(0).zfill(12))):
+                    f = list(tmpl)
+                    f[fi] = tmpl[fi][:m.start()] + rep + tmpl[fi][m.end():]
+                    out.append((tname, fi * 10 + j, "run-" + rk, sep.join(f)))
         if tier != "quick":
             for (f1, f2) in itertools.combinations(range(len(tmpl)), 2):
                 for m1, m2 in rng.sample(list(itertools.product(MUTS, repeat=2)), 25):
